@@ -77,6 +77,7 @@ def jCmd (j : Json) : R Cmd := do
   | some (Json.str "npView") => pure (.npView (← jNat (← arg a 1)))
   | some (Json.str "mkStorage") => pure (.mkStorage (← jList jNat (← arg a 1)))
   | some (Json.str "opStorage") => pure (.opStorage (← jList jNat (← arg a 1)))
+  | some (Json.str "opAliased") => pure (.opAliased (← jNat (← arg a 1)))
   | some (Json.str "mkArray") => pure (.mkArray (← jNat (← arg a 1)))
   | some (Json.str "view") => pure (.view (← jNat (← arg a 1)) (← jNat (← arg a 2)))
   | some (Json.str "alias") => pure (.alias (← jNat (← arg a 1)))
@@ -174,6 +175,9 @@ def c20 (op : String) (a : Array Json) : R (Option Json) := do
   | "c20_own_run" =>
     let hi ← jBool (← arg a 1); let hs ← jBool (← arg a 2); let cmds ← (← arg a 3).getArr?
     pure (some (okJ (← ownRun { holdInputs := hi, holdStorage := hs } cmds)))
+  | "c20_excluded_history" =>
+    let cmds ← jList jCmd (← arg a 1)
+    pure (some (okJ (Json.bool (SparseV.Own.ExcludedHistory cmds))))
   | _ => pure none
 
 end DriverOps
